@@ -162,7 +162,13 @@ func (p *packetizer) NextFrame() (msg rpcMessage, err error) {
 	r := newFrameReader(p.reader.reader, l, p.log)
 	defer func() {
 		drainErr := r.drain()
-		if drainErr != nil && err == nil {
+		// A frame that could not be drained is truncated, which is
+		// fatal. Let that override a nil error and also the errors
+		// the receive loop would otherwise continue after (an
+		// unknown method or call decoded from the part that did
+		// arrive), so that the end of the stream is not reported as
+		// a clean EOF on the next call.
+		if drainErr != nil && shouldContinue(err) {
 			msg = nil
 			err = drainErr
 		}
